@@ -122,3 +122,64 @@ Proof.
   unfold dewey_matches. destruct (rsplit_once 45 pkg) as [[bb v]|]; [|reflexivity]. cbn [dbase dbounds].
   destruct (eqs bb b); [|reflexivity]. cbn. rewrite !andb_true_r. reflexivity.
 Qed.
+
+Theorem new_no_op p : no_op p -> dewey_new p = Fail ENoOp.
+Proof. intros H. unfold dewey_new. rewrite scan_ops_noop by auto. reflexivity. Qed.
+Theorem new_too_many p : (3 <= length (scan_ops 0 p))%nat -> dewey_new p = Fail ETooMany.
+Proof. unfold dewey_new. destruct (scan_ops 0 p) as [|[[? ?] ?] [|[[? ?] ?] [|? ?]]]; cbn; try lia. reflexivity. Qed.
+
+(* every slice taken by Dewey::new is in range: the index arithmetic never panics *)
+Lemma scan_ops_shape i s : forall t, In t (scan_ops i s) ->
+  (i <= fst (fst t) /\ fst (fst t) < snd (fst t) <= i + length s)%nat.
+Proof.
+  revert i; induction s as [|c s IH]; intros i t; cbn [scan_ops]; [intros []|].
+  assert (forall t, In t (scan_ops (S i) s) -> (i <= fst (fst t) /\ fst (fst t) < snd (fst t) <= i + length (c :: s))%nat) as R.
+  { intros t' H. apply IH in H. cbn [length]. lia. }
+  assert (forall o1 o2, In t ((if match s with 61 :: _ => true | _ => false end then (i, (i + 2)%nat, o1) else (i, (i + 1)%nat, o2)) :: scan_ops (S i) s) ->
+     (i <= fst (fst t) /\ fst (fst t) < snd (fst t) <= i + length (c :: s))%nat) as Q.
+  { intros o1 o2 [<-|H]; [|apply R; auto]. destruct s as [|x s']; cbn; [lia|].
+    destruct x as [|px]; cbn; try lia.
+    destruct (Pos.eq_dec px 61) as [->|]; cbn; [lia|].
+    repeat (destruct px as [px|px|]; cbn; try lia). }
+  destruct (c =? 62); [apply Q|]. destruct (c =? 60); [apply Q|]. apply R.
+Qed.
+Lemma scan_ops_sorted i s : forall a b r, scan_ops i s = a :: b :: r -> (snd (fst a) <= fst (fst b))%nat.
+Proof.
+  revert i; induction s as [|c s IH]; intros i a b r; cbn [scan_ops]; [discriminate|].
+  set (ne := match s with 61 :: _ => true | _ => false end).
+  assert (forall o1 o2, (if ne then (i, (i + 2)%nat, o1) else (i, (i + 1)%nat, o2)) :: scan_ops (S i) s = a :: b :: r ->
+          (snd (fst a) <= fst (fst b))%nat) as Q.
+  { intros o1 o2 [= <- E]. unfold ne. destruct s as [|x s'].
+    - discriminate.
+    - assert (In b (scan_ops (S i) (x :: s'))) as Hin by (rewrite E; left; auto).
+      destruct (N.eqb_spec x 61) as [->|Hx].
+      + cbn [scan_ops] in E. change (61 =? 62) with false in E. change (61 =? 60) with false in E. cbv iota in E.
+        assert (In b (scan_ops (S (S i)) s')) as Hin2 by (rewrite E; left; auto).
+        apply scan_ops_shape in Hin2. cbn. lia.
+      + apply scan_ops_shape in Hin.
+        replace (match x with 61 => true | _ => false end) with false.
+        2:{ destruct x as [|px]; auto. destruct (Pos.eq_dec px 61) as [->|]; [congruence|].
+            repeat (destruct px as [px|px|]; auto); congruence. }
+        cbn. lia. }
+  destruct (c =? 62); [apply Q|]. destruct (c =? 60); [apply Q|]. apply IH.
+Qed.
+Lemma slice_some s a b : (a <= b <= length s)%nat -> exists t, slice s a b = Some t.
+Proof. intros H. unfold slice.
+  replace (Nat.leb a b) with true by (symmetry; apply Nat.leb_le; lia).
+  replace (Nat.leb b (length s)) with true by (symmetry; apply Nat.leb_le; lia). cbn. eauto. Qed.
+
+Theorem new_never_panics p : is_panic (dewey_new p) = false.
+Proof.
+  unfold dewey_new. destruct (scan_ops 0 p) as [|[[i0 v0] o0] [|[[i1 v1] o1] [|? ?]]] eqn:E; auto.
+  - assert (In (i0, v0, o0) (scan_ops 0 p)) as H by (rewrite E; left; auto).
+    apply scan_ops_shape in H. cbn in H.
+    destruct (slice_some p v0 (length p)) as (t & ->); [lia|].
+    destruct (slice_some p 0 i0) as (b & ->); [lia|]. reflexivity.
+  - destruct (is_lower_bound o0 && is_upper_bound o1); auto.
+    assert (In (i0, v0, o0) (scan_ops 0 p)) as H0 by (rewrite E; left; auto).
+    assert (In (i1, v1, o1) (scan_ops 0 p)) as H1 by (rewrite E; right; left; auto).
+    apply scan_ops_shape in H0, H1. pose proof (scan_ops_sorted _ _ _ _ _ E) as S. cbn in *.
+    destruct (slice_some p v0 i1) as (t0 & ->); [lia|].
+    destruct (slice_some p v1 (length p)) as (t1 & ->); [lia|].
+    destruct (slice_some p 0 i0) as (b & ->); [lia|]. reflexivity.
+Qed.
